@@ -9,6 +9,7 @@ Import ListNotations.
 Local Open Scope string_scope.
 
 Definition expected_pins_C01 : list (string * string) := [
+  ("kernel/mem_util.go:Memset", "f8b1d2241d553612");
   ("kernel/mm/page.go:<declarations>", "1688c28adaf4dfd2");
   ("kernel/mm/page.go:AllocFrame", "e4026a7b2cee5676");
   ("kernel/mm/page.go:Frame.Address", "92a80170c2d5f6fd");
